@@ -959,7 +959,16 @@ fn parse_struct_literal(
     id_gen: &mut IdGenerator,
     diagnostics: &mut Vec<ParseError>,
 ) -> Expression {
+    let start_idx = tokens.idx;
     let name = parse_type_symbol(tokens, id_gen, diagnostics);
+    if tokens.idx == start_idx {
+        // The name is a keyword on a later line than the previous
+        // token (e.g. `else{` at the start of a line). `parse_symbol`
+        // has reported it without consuming it, so parsing the fields
+        // would see the same token again and recurse forever.
+        return Expression::invalid(name.position, id_gen.next());
+    }
+
     require_token(tokens, diagnostics, "{");
     let fields = parse_struct_literal_fields(tokens, id_gen, diagnostics);
 
